@@ -181,7 +181,7 @@ func load(overlay map[string][]byte, pkgPaths []string) (*ssa.Program, map[strin
 var initAllow = map[string]bool{
 	"strings": true, "bytes": true, "bufio": true, "strconv": true, "unicode": true, "unicode/utf8": true,
 	"encoding/base64": true, "errors": false, "io": true, "path/filepath": true, "sort": true, "context": true,
-	"math": true, "path": true, "io/fs": true, "internal/oserror": true, "encoding/binary": true,
+	"math": true, "path": true, "regexp": true, "regexp/syntax": true, "io/fs": true, "internal/oserror": true, "encoding/binary": true,
 	"golang.org/x/crypto/ssh/knownhosts": false,
 }
 
